@@ -63,8 +63,19 @@ def rules(b):
     return True
 
 
+def _named_none(e):
+    return e[0] == "DTN" and bytes(e[2]) == b"none"
+
+
 def dont_care(b):
-    return (b["p"]["flags"] & 0xE218) == 0xE218 or any((c["flags"] & 0xF0) == 0xF0 for c in b["cs"])
+    """the stale reserved-bits masks (property text) - and one bundle class on which the rule list does not decide: a decoded source
+    [1,"none"] is a dtn endpoint whose NAME is the text "none"; it prints as dtn:none, the null endpoint is [1,0].  Whether such a bundle
+    "has an anonymous source" (and so must not carry a block asking for a status report) is not settled by the property: the library
+    compares with the value [1,0], a reader of the URI sees dtn:none.  Either verdict is accepted (found by the audit of D-27; the seeded
+    change that treats it as anonymous was reclassified, seeded/N2-*)."""
+    if (b["p"]["flags"] & 0xE218) == 0xE218 or any((c["flags"] & 0xF0) == 0xF0 for c in b["cs"]):
+        return True
+    return _named_none(b["p"]["src"]) and not (b["p"]["flags"] & 2) and any(c["flags"] & 2 for c in b["cs"])
 
 
 def _mk_block(rng, kind, num, status):
@@ -174,7 +185,8 @@ def corpus():
         p.update(flags=0, t=5, src=("DTN", 1, b"//n/a"))
         out.append(_line(dict(p=p, cs=[dict(type=t, num=3, flags=0, crc=("N",), data=("UNK", b"")), dict(type=real, num=2, flags=0, crc=("N",), data=d),
                                        dict(type=1, num=1, flags=0, crc=("N",), data=("DATA", b"x"))])))
-    # a source whose dtn NAME is the text "none" ([1,"none"]) is not the null endpoint [1,0]: the rules for anonymous bundles do not apply
+    # a source whose dtn NAME is the text "none" ([1,"none"]; the null endpoint is [1,0]): with a block asking for a status report the
+    # verdict is free (dont_care), without one every other rule is judged as usual
     for fl, bfl in ((0, 0x02), (0x4000, 0), (0x20000, 0x02), (0x40, 0x12), (0x04, 0x02)):
         for name in (b"none", b"//none/x", b"none/"):
             p = genb.rnd_primary(rng, crc_kind=0, fragment=False)
